@@ -289,6 +289,30 @@ fn eval_tree(rt: &tokio::runtime::Runtime, root: &Path, t: &Tree) -> Result<Eval
 		}
 		summary.push(json!({"origins_from_level": start, "levels_returned": levels}));
 	}
+	// a start path whose last two components do not exist (a vanished subtree): the
+	// directories that cannot be listed are simply not origins, the walk goes on above them
+	{
+		ev.evaluations += 1;
+		let start = chain[t.depth].join("gone").join("away");
+		let got = rt.block_on(project_origins::origins(&start));
+		for lvl in 1..=t.depth {
+			let want = level_is_origin(lvl);
+			let has = got.contains(&chain[lvl]);
+			if want && !has {
+				let m = at(lvl).find(|p| p.is_marker()).map(pname).unwrap_or_default();
+				ev.violations.push((
+					format!("C20/origins/missed/below-unlistable-start/{m}"),
+					format!("start path {} (two missing trailing components): level {lvl} holds {m} and is an ancestor, origins() returned {} paths without it", start.display(), got.len()),
+				));
+			}
+			if has && !want {
+				ev.violations.push(("C20/origins/spurious/below-unlistable-start".into(), format!("start path {}: origins() returned unmarked level {lvl}", start.display())));
+			}
+		}
+		if got.contains(&start) || got.contains(&chain[t.depth].join("gone")) {
+			ev.violations.push(("C20/origins/spurious/nonexistent-directory".into(), format!("start path {}: origins() returned a directory that does not exist", start.display())));
+		}
+	}
 	for lvl in 1..=t.depth {
 		ev.evaluations += 1;
 		let got: BTreeSet<String> = rt.block_on(project_origins::types(&chain[lvl])).into_iter().map(|t| format!("{t:?}")).collect();
